@@ -270,6 +270,7 @@ theorem fixed_storage_err {ε} (h : FixedShapeTensorField ε) (hbig : i32Max < s
       rw [hsp] at h3
       cases e with
       | err m => rfl
+      | errCtx m a => rfl
       | panic m => cases h3
 
 /-- "never panic" for all shapes -/
